@@ -17,10 +17,12 @@
    With respect to a lock a label is an acquisition (Acq: the lock call and the code of the critical
    section up to the next log point), a release (Rel: the code before the unlock call and the unlock),
    or Plain (code executed with the lock state unchanged).  `disciplined` is the per-step statement;
-   the section proves from it, for ANY transition system: the trace form, that two conflicting steps
-   of distinct threads are never both enabled unless both are acquisitions of the same free lock
-   which then exclude each other, and that inside a critical section nobody else changes a protected
-   variable.  The per-model files instantiate the section.  *)
+   the section proves from it, for ANY transition system: the trace form (trace_discipline), that
+   two conflicting steps of distinct threads are never both enabled unless both are acquisitions of
+   the same free lock which then exclude each other (no_concurrent_conflict / arbitrated), and that
+   inside a critical section nobody else changes a protected variable (cs_stable, which needs the
+   footprints to list every variable a step changes: writes_sound).  The per-model files
+   instantiate the section.  *)
 From Coq Require Import List Bool.
 Import ListNotations.
 
